@@ -363,7 +363,7 @@ impl Run {
                     Some(d) => self.ad(d),
                     None => IBC_DENOM.to_string(),
                 };
-                let (h, o) = self.w.hook_call(&ch, &from, amt, &msg, limited, &den);
+                let (h, o) = self.w.hook_call(&ch, &from, amt, &msg, limited, &den, &tenv);
                 call["s"] = json!(self.w.names.nm(&h));
                 if o.ok {
                     if let Some(e) = exp {
